@@ -133,8 +133,97 @@ def check_geneq(prop, status, make_timeout=1200):
     return res
 
 
+# ---------------------------------------------------------------- panic-site inventory
+BASELINE = os.path.join(CRATE, 'panic_baseline.json')
+
+
+def _site_groups(sites):
+    """{(file, fn, kind): [site, ...]}; the key does not mention lines, so comment / whitespace edits and
+    moved functions leave it unchanged"""
+    g = {}
+    for s in sites:
+        g.setdefault((s['file'], s['fn'], s['kind']), []).append(s)
+    return g
+
+
+def load_sites():
+    return json.load(open(os.path.join(GEN, 'panic_sites.json')))
+
+
+def make_baseline(sites):
+    out = {}
+    for (f, fn, kind), l in sorted(_site_groups(sites).items()):
+        out['%s :: %s :: %s' % (f, fn, kind)] = {'count': len(l), 'class': l[0]['class'], 'snippets': sorted(x['snippet'] for x in l)}
+    return out
+
+
+def _match_file(f, pats):
+    import fnmatch
+    return any(fnmatch.fnmatch(f, p) for p in pats)
+
+
+def check_panic_sites(prop):
+    """Compares coq/Gen/panic_sites.json (regenerated from the tree under test by `regenerate`) with the
+    committed baseline rs2v/panic_baseline.json.  Informational: counts per class / kind / file.  One
+    obligation per function of the watched files that has panic sites in the baseline ("no panic site
+    beyond those the hand model / kernel accounts for"); a NEW site (more sites of one kind in one
+    function than the baseline has, or a function that had none) in a watched file is a broken
+    obligation named by its location."""
+    cfg = prop.get('panic_inventory')
+    if not cfg:
+        return None
+    watched = cfg.get('files', [])
+    inv = load_sites()
+    sites = inv['sites']
+    base = json.load(open(BASELINE)) if os.path.exists(BASELINE) else {}
+    cur = _site_groups(sites)
+    by_class, by_kind, by_file = {}, {}, {}
+    for s in sites:
+        by_class[s['class']] = by_class.get(s['class'], 0) + 1
+        by_kind[s['kind']] = by_kind.get(s['kind'], 0) + 1
+        d = by_file.setdefault(s['file'], {})
+        d[s['class']] = d.get(s['class'], 0) + 1
+    fns = sorted(set((k.split(' :: ')[0], k.split(' :: ')[1]) for k in base if _match_file(k.split(' :: ')[0], watched)))
+    broken, new_sites, gone = [], [], []
+    for (f, fn, kind), l in sorted(cur.items()):
+        if not _match_file(f, watched):
+            continue
+        b = base.get('%s :: %s :: %s' % (f, fn, kind), {'count': 0, 'snippets': []})
+        if len(l) <= b['count']:
+            continue
+        # name the new site(s): the snippets the baseline does not have (all of them if that is not conclusive)
+        old = list(b['snippets'])
+        fresh = []
+        for x in l:
+            if x['snippet'] in old:
+                old.remove(x['snippet'])
+            else:
+                fresh.append(x)
+        if len(fresh) != len(l) - b['count']:
+            fresh = fresh or l
+        for x in fresh:
+            cov = ('kernel ' + ','.join(x['kernels'])) if x['class'] == 'kernel' else ('model ' + x['model']) if x['class'] == 'model' else 'UNMODELLED function'
+            new_sites.append(x)
+            broken.append('panic:%s:%d new panic site `%s` (%s) in fn %s [%s]: not accounted for by the no-panic theorems; baseline has %d `%s` site(s) there, the source now %d'
+                          % (x['file'], x['line'], x['snippet'][:100], x['kind'], fn, cov, b['count'], kind, len(l)))
+    for k, b in sorted(base.items()):
+        f, fn, kind = k.split(' :: ')
+        if _match_file(f, watched) and len(cur.get((f, fn, kind), [])) < b['count']:
+            gone.append('%s (%d -> %d)' % (k, b['count'], len(cur.get((f, fn, kind), []))))
+    return {'obligations': len(fns), 'broken': broken,
+            'summary': {'sites': len(sites), 'by_class': by_class, 'by_kind': by_kind, 'by_file': by_file,
+                        'watched_files': watched, 'watched_functions_with_sites': len(fns),
+                        'new_sites': [{'file': x['file'], 'line': x['line'], 'fn': x['fn'], 'kind': x['kind'], 'class': x['class'], 'snippet': x['snippet']} for x in new_sites],
+                        'sites_removed_since_baseline': gone, 'unparsed': inv.get('unparsed', []),
+                        'baseline': os.path.relpath(BASELINE, ROOT)}}
+
+
 if __name__ == '__main__':
     st = regenerate(os.environ.get('VERIF_REPO', '/repo'))
+    if '--update-panic-baseline' in sys.argv:
+        b = make_baseline(load_sites()['sites'])
+        open(BASELINE, 'w').write(json.dumps(b, indent=1, sort_keys=True) + '\n')
+        print('rs2v: panic baseline written: %d (file, fn, kind) groups, %d sites' % (len(b), sum(x['count'] for x in b.values())))
     bad = [k for k in st if not k['ok']]
     print('rs2v: %d kernels regenerated, %d failed' % (len(st) - len(bad), len(bad)))
     for k in bad:
